@@ -796,6 +796,12 @@ func (c *Client) retry(ctx context.Context, command *proto.Command, nodeAddr str
 			// it. Sending it again could execute it twice.
 			return nil, nRetries, errOuter
 		}
+		if errors.Is(errOuter, errResponseLost) && mayModify(command) {
+			// The command reached the remote node, but the connection broke before
+			// the response arrived. The remote node may well have executed it, so
+			// sending it again could apply a write twice.
+			return nil, nRetries, errOuter
+		}
 		nRetries++
 		stats.Add(numClientRetries, 1)
 
@@ -833,8 +839,27 @@ func writeCommandReadResponse(conn net.Conn, c *proto.Command, timeout time.Dura
 	b, err := readResponse(conn, timeout)
 	if err != nil && errors.Is(err, os.ErrDeadlineExceeded) {
 		return nil, fmt.Errorf("%w: %w", errResponseTimeout, err)
+	} else if err != nil {
+		return nil, fmt.Errorf("%w: %w", errResponseLost, err)
 	}
-	return b, err
+	return b, nil
+}
+
+// errResponseLost marks any other failure to read the response to a command which
+// was written to the remote node in full.
+var errResponseLost = errors.New("connection lost waiting for response")
+
+// mayModify returns true if executing the command a second time on the remote
+// node could change the database again.
+func mayModify(c *proto.Command) bool {
+	switch c.Type {
+	case proto.Command_COMMAND_TYPE_EXECUTE,
+		proto.Command_COMMAND_TYPE_REQUEST,
+		proto.Command_COMMAND_TYPE_LOAD,
+		proto.Command_COMMAND_TYPE_LOAD_CHUNK:
+		return true
+	}
+	return false
 }
 
 func writeCommand(conn net.Conn, c *proto.Command, timeout time.Duration) error {
